@@ -20,8 +20,10 @@ import (
 	"hash/fnv"
 	"os"
 	"path/filepath"
+	"runtime/debug"
 	"sort"
 	"strconv"
+	"strings"
 	"sync"
 	"testing"
 
@@ -203,6 +205,35 @@ type Prop[C any] struct {
 	Check func(t *testing.T, c C) *Verdict
 }
 
+// guarded evaluates the property body and turns a panic that unwinds through frames of the
+// code under test into a failing verdict (with the stack), so that it gets a replay file
+// and shrinks like any other failure. Panics that never touched go-sse are harness bugs
+// and propagate (the driver then reports the run as inconclusive).
+func guarded[C any](t *testing.T, p Prop[C], c C) (v *Verdict) {
+	defer func() {
+		if r := recover(); r != nil {
+			stack := string(debug.Stack())
+			if !strings.Contains(stack, "github.com/tmaxmax/go-sse") {
+				panic(r)
+			}
+			v = &Verdict{}
+			v.Failf("panic", "panic in the code under test: %v\n%s", r, trimStack(stack))
+		}
+	}()
+	return p.Check(t, c)
+}
+
+func trimStack(s string) string {
+	lines := strings.Split(s, "\n")
+	var out []string
+	for i := 0; i+1 < len(lines) && len(out) < 24; i++ {
+		if strings.Contains(lines[i], "go-sse") || strings.Contains(lines[i], "verif/harness") {
+			out = append(out, strings.TrimSpace(lines[i])+" "+strings.TrimSpace(lines[i+1]))
+		}
+	}
+	return strings.Join(out, "\n")
+}
+
 // Run evaluates p: on the replay files when VERIF_REPLAY is set, else under rapid.Check.
 func Run[C any](t *testing.T, p Prop[C]) {
 	col := get(p.ID)
@@ -224,7 +255,7 @@ func Run[C any](t *testing.T, p Prop[C]) {
 			if err := json.Unmarshal(ff.Case, &c); err != nil {
 				t.Fatalf("replay %s: case: %v", f, err)
 			}
-			v := p.Check(t, c)
+			v := guarded(t, p, c)
 			Count(p.ID, "replayed_files", 1)
 			if v.Fail != "" {
 				writeFail(p.ID, c, v)
@@ -235,7 +266,7 @@ func Run[C any](t *testing.T, p Prop[C]) {
 	}
 	rapid.Check(t, func(rt *rapid.T) {
 		c := p.Gen(rt)
-		v := p.Check(t, c)
+		v := guarded(t, p, c)
 		col.record(c, v)
 		if v.Fail != "" {
 			writeFail(p.ID, c, v)
